@@ -8,6 +8,7 @@ CONSTANTS
     Ks = {2}
     MaxIters = {1, 2, 3}
     LCM = 60
+    ShowEmpty = FALSE
     Replay = TRUE
 SPECIFICATION Spec
 INVARIANT FitCorrect
